@@ -59,3 +59,77 @@ def t_sort(world):
 _t16 = tasks
 def tasks(tier):
     return _t16(tier) + [('sort', t_sort)]
+
+
+# ---------------------------------------------------------------- C16.a: find_or_create / find on all 16 symbolic slots
+def t_find_or_create(world):
+    import z3
+    eng = world.engine(max_paths=50000)
+    f = world.fn(r'marginfi_account\.rs[^>]*>::find_or_create$')
+    args = [eng.ex.fresh(ty, n) for n, (_, ty) in zip(['key', 'bank', 'la'], f.params)]
+    res = eng.run_fn(f, args)
+    ob = Ob('C16.a.find_or_create', 'find_or_create(bank): returns the FIRST active slot holding that bank if one exists (nothing changes); otherwise initialises the FIRST inactive slot as an empty position of that bank '
+            '(active, key, the bank\'s asset tag, zero shares/emissions) and changes no other slot; a new integration position only while fewer than 8 active integration positions (Kamino+Drift+Solend together) exist; '
+            'so it never creates a second position for a bank', [f.name], 'all 16 slots symbolic (iterator models, closures from MIR); every path')
+    ob.paths = len(res)
+    BI = STRUCTS['Balance']; LI = STRUCTS['LendingAccount'].index('balances')
+    def s0(k, fld): return z3.Int(f'la*.{LI}[{k}].{BI.index(fld)}')
+    key = ev(eng.deref_val(args[0]))
+    tag_bank = fsym('bank*', 'Bank', 'config.asset_tag')
+    integ = lambda t: z3.Or(t == 3, t == 4, t == 5)
+    held0 = lambda j: z3.And(s0(j, 'active') != 0, s0(j, 'bank_pk') == key)
+    FLD = ['active', 'bank_pk', 'bank_asset_tag', 'asset_shares', 'liability_shares', 'emissions_outstanding', 'last_update']
+    n_ok = 0
+    for r, okc in ok_paths(res):
+        if ob.witness(eng, r, [okc]) is False: continue
+        n_ok += 1
+        wrap = r['ret'].payload[0][0]
+        bref = wrap.fields.get(0)
+        la = eng.deref_val(r['roots'][2])
+        idx = [st[1] for st in bref.path if st[0] == 'i'] if isinstance(bref, RefV) else []
+        if not idx and isinstance(bref, RefV):      # a reference to the slot's own cell: identify the slot by object identity
+            tgt = eng.deref_val(bref)
+            idx = [j for j in range(16) if eng.get_path(la, (('f', LI, '[Balance; 16]'), ('i', j))) is tgt]
+        if len(idx) != 1: ob.fail(f'cannot identify the returned slot: {bref}'); continue
+        k = idx[0]
+        def s1(j, fld): return ev(fget(eng, eng.get_path(la, (('f', LI, '[Balance; 16]'), ('i', j))), 'Balance', fld))
+        unchanged = lambda js: z3.And([s1(j, fl) == s0(j, fl) for j in js for fl in FLD])
+        existing = z3.And(held0(k), z3.And([z3.Not(held0(j)) for j in range(k)] + [z3.BoolVal(True)]), unchanged(range(16)))
+        count0 = z3.Sum([z3.If(z3.And(s0(j, 'active') != 0, integ(s0(j, 'bank_asset_tag'))), 1, 0) for j in range(16)])
+        created = z3.And(z3.And([z3.Not(held0(j)) for j in range(16)]), s0(k, 'active') == 0, z3.And([s0(j, 'active') != 0 for j in range(k)] + [z3.BoolVal(True)]),
+                         s1(k, 'active') == 1, s1(k, 'bank_pk') == key, s1(k, 'bank_asset_tag') == tag_bank, s1(k, 'asset_shares') == 0, s1(k, 'liability_shares') == 0, s1(k, 'emissions_outstanding') == 0,
+                         unchanged([j for j in range(16) if j != k]), z3.Implies(integ(tag_bank), count0 < 8))
+        ob.prove(eng, r, [okc], z3.Or(existing, created), f'slot {k}: either the first existing position of the bank (account untouched) or a freshly initialised first free slot under the integration cap', role='find-or-create')
+        ob.prove(eng, r, [okc], z3.And(s1(k, 'active') != 0, s1(k, 'bank_pk') == key), f'slot {k}: returned position is active and belongs to the requested bank', role='find-or-create-key')
+    ob.notes.append(f'{n_ok} accepting paths')
+    ob.need_witness()
+    # find: never creates, returns the first active slot of the bank
+    eng2 = world.engine(max_paths=20000)
+    f2 = world.fn(r'marginfi_account\.rs[^>]*>::find$', pred=lambda f_: len(f_.params) == 3 and 'LendingAccount' in f_.params[2][1])
+    a2 = [eng2.ex.fresh(ty, n) for n, (_, ty) in zip(['key', 'bank', 'la'], f2.params)]
+    res2 = eng2.run_fn(f2, a2)
+    ob2 = Ob('C16.a.find', 'find(bank): Ok only for the first active slot holding that bank; the account is not modified', [f2.name], 'all 16 slots symbolic'); ob2.paths = len(res2)
+    key2 = ev(eng2.deref_val(a2[0]))
+    for r, okc in ok_paths(res2):
+        if ob2.witness(eng2, r, [okc]) is False: continue
+        bref = r['ret'].payload[0][0].fields.get(0)
+        idx = [st[1] for st in bref.path if st[0] == 'i'] if isinstance(bref, RefV) else []
+        if len(idx) != 1: ob2.fail('cannot identify the returned slot'); continue
+        k = idx[0]
+        la = eng2.deref_val(r['roots'][2])
+        def t1(j, fld): return ev(fget(eng2, eng2.get_path(la, (('f', LI, '[Balance; 16]'), ('i', j))), 'Balance', fld))
+        ob2.prove(eng2, r, [okc], z3.And([z3.And(s0(k, 'active') != 0, s0(k, 'bank_pk') == key2)] + [z3.Not(z3.And(s0(j, 'active') != 0, s0(j, 'bank_pk') == key2)) for j in range(k)] +
+                                         [t1(j, fl) == s0(j, fl) for j in range(16) for fl in FLD]), f'slot {k}: first active slot of the bank; nothing written', role='find')
+    ob2.need_witness()
+    return [ob, ob2]
+
+
+_t16a = tasks
+def tasks(tier):
+    return _t16a(tier) + [('find_or_create', t_find_or_create)]
+
+
+def kani(tier):
+    if tier != 'thorough': return []
+    return [dict(harness='tags_16', oid='C16.k', covers=2, stubs=5, desc='SECOND ENGINE (Kani/CBMC on the compiled code): validate_asset_tags over 16 symbolic slots rejects exactly when a staked position would be mixed with a default-class one (SOL mixes with both)',
+                 functions=['marginfi::utils::validate_asset_tags'], bounds='16 slots, active bits and tags (0..=5) symbolic; unwind 34')]
